@@ -39,6 +39,19 @@ def impl(c):
         G2 = G; to2 = back = lambda X: list(X)
     D2, E2 = to2(c["D"]), to2(c["E"]); out = {}
     mk = lambda X: common.build_impl_divisor(G2, X, rng=rng)
+    if c["variant"] == 3 and len(G2["edges"]) >= 2:
+        # one more way of supplying the same edges: part of them to the constructor, a question asked, the others through add_edge afterwards; every
+        # answer below is then asked on this one graph object
+        es = [list(e) for e in G2["edges"]]; rng.shuffle(es); cut = rng.randint(1, len(es) - 1); names2 = G2["names"]
+        first = common.mk_graph_like(G2, es[:cut])
+        if common.is_connected(first):
+            gobj = common.build_impl_graph(first, rng)
+            probe = common.build_impl_divisor(first, D2, graph=gobj, rng=rng); is_winnable(probe); q_reduction(common.build_impl_divisor(first, D2, graph=gobj, rng=rng)); gobj.get_genus()
+            if first["n"] <= 4: gonality(gobj, find_strategies=False)
+            for a, b, k in es[cut:]:
+                if rng.random() < 0.5: a, b = b, a
+                gobj.add_edge(names2[a], names2[b], k)
+            mk = lambda X: common.build_impl_divisor(G2, X, graph=gobj, rng=rng)
     d = mk(D2); out["plain"] = bool(EWD(d.graph, d)[0]); d = mk(D2); out["opt"] = bool(EWD(d.graph, d, optimized=True)[0]); out["isw"] = bool(is_winnable(mk(D2)))
     out["qred"] = back(common.div_to_list(G2, q_reduction(mk(D2))))
     out["lineq"] = bool(linear_equivalence(mk(D2), mk(E2)))
@@ -47,7 +60,7 @@ def impl(c):
         dg = mk(D2); out["greedy"] = bool(GreedyAlgorithm(dg.graph, dg).play()[0])
     if c["rank"]: out["rank"] = R.rank(mk(D2)).rank
     if c["gon"]:
-        out["gon"] = gonality(common.build_impl_graph(G2, rng), find_strategies=False).gonality
+        out["gon"] = gonality(mk(D2).graph if c["variant"] == 3 else common.build_impl_graph(G2, rng), find_strategies=False).gonality
         out["gon_s"] = gonality(common.build_impl_graph(G2, rng), find_strategies=True).gonality        # the search that also collects strategies
     return out
 def model_lines(c):
